@@ -244,7 +244,8 @@ fn account(what: &str, toks: &[Tok], s: &Snap, len: usize, is_map: bool, anon_k:
         Some(Tok::SeqStart(n)) if !is_map => *n,
         t => return bad(format!("the stream starts with {t:?}")),
     };
-    if announced != Some(len) {
+    // announcing no length at all is the serializer's choice; announcing a wrong one is not
+    if announced.is_some() && announced != Some(len) {
         return bad(format!("announced length {announced:?} but len() is {len}"));
     }
     if toks.last() != Some(&Tok::End) {
